@@ -78,20 +78,20 @@ NOT_YET = {}
 
 # added in later rounds (appended to the level text)
 EXTRA = {
- "C01": " Block and transaction versions in the upper half of the 4-byte field (0x80000000 .. 0xffffffff), printed as the unsigned numbers that are stored.",
- "C12": " Versions with the top bit set on the AuxPoW coins (with their sections).",
- "C15": " A coinbase whose first output lies in the upper half of the 8-byte amount field.",
- "C17": " The 200-file disjoint layout entered with --start at heights around 2^16, 2^31, 2^32 and 2^40 under the calibrated descriptor limit.",
- "C02": " Asynchronous events: a signal (SIGINT/SIGTERM/SIGHUP/SIGUSR1) raised before EVERY read of a blk file - whatever then carries a final name after an exit 0 must hold exactly the model's output for the range in its name. Partial directories (the file of the blocks below --start missing), the reader's calendar clock behind the chain.",
- "C04": " The index replaced while the run is in the middle of its blocks (chain grows / tip reorganised / deeper reorganisation), applied by the shim before EVERY blk read in turn: the delivered sequence must stay a chain of blocks that are active before or after. The reader's calendar clock behind the chain's timestamps.",
- "C07": " Twin-id history explorer: every ordered selection of up to 3 of the 4 outpoints of two transactions whose ids agree in 10 byte regions is spent (410 worlds per callback, real callbacks, ids replaced after parsing). Signals before every blk read (see C02). Amounts in the upper half of the 8-byte field (2^63, 2^63+1, 2^64-1) as single values.",
- "C08": " Twin-id history explorer and signals before every blk read as in C07. Amounts in the upper half of the 8-byte field as single values.",
- "C09": " Must-pass chains on a pruning node's directory (--verify --start at / above the first stored height). Must-pass chains with witness stack items of 252 .. 400 000 bytes.",
- "C10": " Signals (SIGINT/SIGTERM/SIGHUP/SIGUSR1/SIGQUIT) raised immediately before EVERY intercepted call on the dump folder and before EVERY blk read: exit 0 only with complete output, and a file under a final name of the undisturbed run is never partial. Merged-mined chains (namecoin, dogecoin) cut at EVERY byte. Input fault 'the record names a missing blk file whose number equals a present file's modulo 2^8 / 2^16 / 2^32 / 2^63'. A reference run that fails on the tree under test is judged by the failure clause and the enumeration that needs it is reported as not run (never a machinery error).",
+ "C01": " Block and transaction versions in the upper half of the 4-byte field (0x80000000 .. 0xffffffff), printed as the unsigned numbers that are stored. Counts and lengths at the powers of two and their neighbours (127 .. 32 769). Data-carrier outputs with UTF-8 texts in which a multi-byte character lies across every byte offset up to 200.",
+ "C12": " Versions with the top bit set on the AuxPoW coins (with their sections). Parent coinbases with a witness item of 25 lengths up to 65 537 bytes and with UTF-8 pool tags at every alignment.",
+ "C15": " A coinbase whose first output lies in the upper half of the 8-byte amount field. Blocks with several coinbase-shaped transactions.",
+ "C17": " The 200-file disjoint layout entered with --start at heights around 2^16, 2^31, 2^32 and 2^40 under the calibrated descriptor limit. The same layout with file names without padding and with nine digits.",
+ "C02": " Asynchronous events: a signal (SIGINT/SIGTERM/SIGHUP/SIGUSR1) raised before EVERY read of a blk file - whatever then carries a final name after an exit 0 must hold exactly the model's output for the range in its name. Partial directories (the file of the blocks below --start missing), the reader's calendar clock behind the chain. Non-block keys in every other index (flag, reindex, file, last-file, txindex records). Heights spelled with leading zeros, a plus sign, or as --start=N.",
+ "C04": " The index replaced while the run is in the middle of its blocks (chain grows / tip reorganised / deeper reorganisation), applied by the shim before EVERY blk read in turn: the delivered sequence must stay a chain of blocks that are active before or after. The reader's calendar clock behind the chain's timestamps. Active chains across the powers of ten (10^5 .. 10^10) with every competitor kind.",
+ "C07": " Twin-id history explorer: every ordered selection of up to 3 of the 4 outpoints of two transactions whose ids agree in 10 byte regions is spent (410 worlds per callback, real callbacks, ids replaced after parsing). Signals before every blk read (see C02). Amounts in the upper half of the 8-byte field (2^63, 2^63+1, 2^64-1) as single values. Blocks without a leading coinbase (none, second, several), transactions without any address in front of spending ones, ranges with nothing to list (header line only).",
+ "C08": " Twin-id history explorer and signals before every blk read as in C07. Amounts in the upper half of the 8-byte field as single values. The same coinbase-position and nothing-to-list worlds as C07.",
+ "C09": " Must-pass chains on a pruning node's directory (--verify --start at / above the first stored height). Must-pass chains with witness stack items of 252 .. 400 000 bytes. Must-pass chains whose transactions carry long UTF-8 texts in data-carrier outputs.",
+ "C10": " Signals (SIGINT/SIGTERM/SIGHUP/SIGUSR1/SIGQUIT) raised immediately before EVERY intercepted call on the dump folder and before EVERY blk read: exit 0 only with complete output, and a file under a final name of the undisturbed run is never partial. Merged-mined chains (namecoin, dogecoin) cut at EVERY byte. Input fault 'the record names a missing blk file whose number equals a present file's modulo 2^8 / 2^16 / 2^32 / 2^63'. A reference run that fails on the tree under test is judged by the failure clause and the enumeration that needs it is reported as not run (never a machinery error). Input fault 'blk file removed, copies under look-alike names left next to it'.",
  "C11": " Layouts with blk files that live in another directory and are linked back. Keys of 255, 256, 257, 300, 1024 and 65 537 bytes without a shorter period.",
  "C03": " Layouts with blk files that live in another directory and are linked back. File-number twins: two files whose numbers agree modulo 2^8 / 2^16 / 2^31 / 2^32 / 2^33 / 2^63, the chain alternating between them.",
- "C13": " Directories taking turns at one path (two good ones, two whose index cannot be loaded; all sequences up to depth 3; TMPDIR / HOME / XDG directories persisting): every run must end like the same run on a fresh path. The free-running real-rayon pass (sampling, labelled) includes a block of 24 x 1500 outputs; a run whose threads are all asleep is judged by the watchdog.",
- "C16": " Runs that fail at a LATER block (4 ways x every height x 3 coins): the lines of the blocks processed before are due.",
+ "C13": " Directories taking turns at one path (two good ones, two whose index cannot be loaded; all sequences up to depth 3; TMPDIR / HOME / XDG directories persisting): every run must end like the same run on a fresh path. The free-running real-rayon pass (sampling, labelled) includes a block of 24 x 1500 outputs; a run whose threads are all asleep is judged by the watchdog. Unspent / balances dumps of 20 000 rows under five hash seeds and worker counts. Stored-but-unconnected blocks above the validated tip in the world that runs under ten hash seeds.",
+ "C16": " Runs that fail at a LATER block (4 ways x every height x 3 coins): the lines of the blocks processed before are due. Blocks whose LAST printed line is a payload ending in white space / a line break / NUL; payloads with a multi-byte character across every byte offset up to 200.",
 }
 PROFILE_NOTE = " Build profile as a dimension: ./check builds the subject in the dev AND the release profile; one whole-program run in four (chosen by a hash of the case) goes to the release binary, and the in-process sweeps run twice, compiled with and without debug assertions / overflow checks."
 
